@@ -257,6 +257,12 @@ def step(ctx, c, twin, dtypes, hist, kind, n, span, op, optag, opval_factory, ta
     ctx.seen('op_outcomes', f'{op}:{outcome}')
     case = {'kind': kind, 'n': n, 'history': hist}
     after = snap(c)
+    if op in ('item', 'replace') and target not in before['index']:
+        # an unknown name must be refused by the variable-assignment paths, not turned into something else
+        ctx.count('unknown_name_assignments')
+        if outcome == 'ok' or after['attrs'] != before['attrs'] or after['keys'] != before['keys'] or not series_same(before, after):
+            ctx.violation('unknown-name-accepted', f'{kind}: {desc} for a name that is not a variable -> {outcome}; attributes {before["attrs"]} -> {after["attrs"]}', case)
+            return False
     if outcome != 'ok' and op in ('add', 'attr', 'item', 'label', 'lslice', 'replace'):
         ctx.count('failed_assignments_checked')
         if not series_same(before, after):
@@ -309,8 +315,10 @@ def choose(rng, c, n, span, op):
     attrs = [a for a in c.__dict__['_attributes'] if not a.startswith('_')]
     if op == 'add':
         return rng.choice(['A', 'B', 'C', 'D', 'lags']), rng.choice([None, None, float, int, bool, str])
-    if op in ('attr', 'replace'):
+    if op == 'attr':
         return (rng.choice(names) if names else 'A'), None
+    if op == 'replace':
+        return (rng.choice(names + ['ZZ', 'Xx']) if names else 'ZZ'), None
     if op == 'item':
         return rng.choice(names + ['ZZ']) if names else 'ZZ', None
     if op == 'label':
